@@ -301,7 +301,7 @@ class CaseGen:
                 if rng.random() < 0.25:
                     op.append(1)       # ... after rendering that state, the last observation and an action
             elif kind == "init":
-                op = [5]
+                op = [5, 1] if rng.random() < 0.5 else [5]
             else:
                 op = [4]
             out = runner.run_op(op)
@@ -362,7 +362,7 @@ class CaseGen:
 def model_ops(ops):
     """the operations as the model sees them: a goal query that is preceded by render calls ([3, i, 1]) is, for
     the model, the plain goal query (rendering is documented to change nothing)"""
-    return [[3, op[1]] if op[0] == 3 else op for op in ops]
+    return [[3, op[1]] if op[0] == 3 else [5] if op[0] == 5 else op for op in ops]
 
 
 def has_bad(x):
